@@ -83,7 +83,11 @@ func fuzzInputs(target string, rng *rand.Rand, deep bool) [][]byte {
 		seeds = append(seeds, ref.PutMPI(nil, ref.P), ref.PutWord(nil, 0xffffffff), ref.PutWord(nil, 0x7fffffff))
 	case "ExtractInstanceTags", "Receive-fresh":
 		hdr := ref.BuildHeader(3, ref.TypeDHKey, 0x12345678, 0x9abcdef0)
-		seeds = append(seeds, ref.Armor(append(hdr, ref.PutMPI(nil, ref.Q)...)), []byte("?OTR|12345678|9abcdef0,00001,00002,AAAA,"), []byte("?OTR:"), []byte("?OTR:."), []byte("?OTR:AAMK"), []byte("?OTR,1,2,x,"), []byte("?OTRv23?"), []byte("?OTR Error: x"))
+		seeds = append(seeds, ref.Armor(append(hdr, ref.PutMPI(nil, ref.Q)...)), []byte("?OTR|12345678|9abcdef0,00001,00002,AAAA,"), []byte("?OTR:"), []byte("?OTR:."), []byte("?OTR:AAMK"), []byte("?OTR,1,2,x,"), []byte("?OTRv23?"), []byte("?OTR Error: x"),
+			// complete one-piece fragments whose payload again begins like a fragment, a query, an encoded message
+			[]byte("?OTR|12345678|9abcdef0,00001,00001,?OTR|00,"), []byte("?OTR|12345678|00000000,00001,00001,?OTR|12345678|9abcdef0,"),
+			[]byte("?OTR,00001,00001,?OTR|00,"), []byte("?OTR,00001,00001,?OTR|12345678|9abcdef0,"), []byte("?OTR|12345678|00000000,00001,00001,?OTRv23?,"),
+			[]byte("?OTR,00001,00001,?OTR:AAMK,"), []byte("?OTR|12345678|00000000,00001,00001,,"), []byte("?OTR,00002,00002,x,"), []byte("?OTR|12345678|00000000,65535,65535,x,"))
 	}
 	for _, s := range seeds {
 		out = append(out, s)
